@@ -30,7 +30,9 @@ from harness.impl import capture as cap
 META = {
     "ops": "elide,settled,hyps,sep",
     "driver": "drv_surface",
-    "translators": ["elision"],
+    "translators": ["elision", "punct", "clausefr"],
+    "extra_modules": ["Pyrealb.Props.C06Models"],
+    "extra_audits": ["C06Models"],
     "technique": "Lean 4 proof (induction over token lists, table facts by decide over the regenerated tables) + "
                  "differential correspondence on token lists, complete lexicon sweep, replay of captured real calls",
     "level_text": "Kernel-checked theorems for token lists of every length: the modelled doElision never raises on "
